@@ -39,6 +39,10 @@ NsList == <<
   N("9gag.example/1/2", <<"9gag.example", "1", "2">>, "digits", TRUE),
   N("Example.org/Upper", <<"Example.org", "Upper">>, "custom", TRUE),
   N("diagonal.works/ns/private", <<"diagonal.works", "ns", "private">>, "standard", TRUE),
+  \* a component that is a proper prefix of another namespace's component, followed by a character that sorts before '/':
+  \* byte-wise order (FeatureID.Less) and component-wise order disagree on these and "example.org/a/b/c/d"
+  N("example.org/a-2023", <<"example.org", "a-2023">>, "prefix-dash", TRUE),
+  N("example.org/a.v2/x", <<"example.org", "a.v2", "x">>, "prefix-dot", TRUE),
   N("example.org/a/b/c/d", <<"example.org", "a", "b", "c", "d">>, "slashes", TRUE),
   N("example.org/with space:colon+plus", <<"example.org", "with space:colon+plus">>, "exotic", FALSE),
   N("exzmple.org/znz", <<"exzmple.org", "znz">>, "unicode", TRUE),
@@ -140,7 +144,8 @@ ASSUME \A i \in DOMAIN Aliases : PrintT(<<"ALIAS", ToJson([prefix |-> Aliases[i]
 RECURSIVE SetToSeq(_)
 SetToSeq(S) == IF S = {} THEN <<>> ELSE LET x == CHOOSE x \in S : TRUE IN <<x>> \o SetToSeq(S \ {x})
 SampleTypes == {0, 1, 2, 3, 5}
-SampleNs == {NsOf("diagonal.works/ns/private"), NsOf("openstreetmap.org/node"), NsOf("openstreetmap.org/node/extra"),
+SampleNs == {NsOf("example.org/a-2023"), NsOf("example.org/a.v2/x"), NsOf("example.org/a/b/c/d"),
+             NsOf("diagonal.works/ns/private"), NsOf("openstreetmap.org/node"), NsOf("openstreetmap.org/node/extra"),
              NsOf("openstreetmap.org/way"), NsOf("Example.org/Upper")}
 SampleVals == {0, 2, 6, 7}
 Sample == SetToSeq([t : SampleTypes, ns : SampleNs, v : SampleVals])
